@@ -16,6 +16,7 @@ import ClarabelProofs.Lemmas.SolverFullCompose
 import ClarabelProofs.Lemmas.StepKBridge
 import ClarabelProofs.Lemmas.SolverFullZero
 import ClarabelProofs.Lemmas.SolverFullExample
+import ClarabelProofs.Lemmas.SolverFullPresolvedCert
 
 namespace Clarabel.C02
 open Clarabel Clarabel.Solver Clarabel.InfoUser Clarabel.Dense
@@ -184,5 +185,132 @@ attribute [local instance] intFloatLike
 example : ∃ S r, newSolver 3 = .ok S ∧ S.solve (Example.st 3) = .ok r :=
   let ⟨S, r, h1, h2, _⟩ := FullExample.run3_hyps; ⟨S, r, h1, h2⟩
 end
+
+/-! ## Round 5 — the full theorems when PRESOLVE DROPS ROWS -/
+
+/-- **[R] `C02.full_primal_infeasible_certifies_presolved`** — `full_primal_infeasible_certifies`
+when presolve is enabled and DROPS ROWS (`keep` = the keep vector of `make_reduction_map`, at least
+one flag `false`).  The full-length `z` the user receives (`reverse_presolve`: `z = 0` on dropped
+rows) is a Farkas certificate for the user's FULL `A` and (capped) `b`, VERBATIM — `Aᵀz`, `bᵀz`,
+`‖z‖` equal the numbers of the reduced problem —: `c·κ·bᵀz < −tol_infeas_abs`, `bᵀz < 0`,
+`‖Aᵀz‖₂ < tol_infeas_rel·c·(−bᵀz)·max(1, κ‖z‖₂)`, and `z ∈ K*` for the user's (collapsed) cone list.
+Composition of `C09.presolve_transparent_full`, `full_primal_infeasible_certifies` on the
+hand-reduced problem and `primal_cert_presolved`'s arithmetic. -/
+theorem full_primal_infeasible_certifies_presolved {P : Csc ℝ} {q : Array ℝ} {A : Csc ℝ}
+    {b : Array ℝ} {cones : List (ConeT ℝ)} {st : Solver.Settings ℝ} {perm : Array Nat} {S : Solver ℝ}
+    {r : SolveResult ℝ} {keep : List Bool}
+    (hin : InputOK P q A b cones) (hpe : st.presolveEnable = true)
+    (hk : Presolve.keepFlags (Presolve.threshold st.infbound) (Cones.newCollapsed cones) b.toList = .ok keep)
+    (hc : keep.count true < b.size)
+    (hlo : 0 < st.equil.minScaling) (hhi : 0 < st.equil.maxScaling)
+    (hf0 : 0 < st.maxStepFraction) (hf1 : st.maxStepFraction < 1) (hmv : 0 < st.maxValue)
+    (htabs : 0 ≤ st.info.full.infeas_abs)
+    (hnew : Solver.new P q A b cones st perm = .ok S) (hr : S.solve st = .ok r)
+    (hst : r.S.solution.status = .primalInfeasible) :
+    ∃ (c κ : ℝ), 0 < c ∧ 0 < κ ∧
+      let bc := ProblemData.capB b st.infbound
+      let z := vecFn r.S.solution.z A.m
+      c * κ * dot (vecFn bc A.m) z < -st.info.full.infeas_abs
+      ∧ dot (vecFn bc A.m) z < 0
+      ∧ nrm (mulVT (matFn A A.m A.n) z)
+          < st.info.full.infeas_rel * c * (-(dot (vecFn bc A.m) z)) * max 1 (κ * nrm z)
+      ∧ (∀ i, InfoPresolve.keepFn keep A.m i = false → z i = 0)
+      ∧ Equil.CompositeMem Equil.ConeMemDual (Cones.newCollapsed cones) r.S.solution.z.toList :=
+  full_primal_infeasible_presolved_chain hin hpe hk hc hlo hhi hf0 hf1 hmv htabs hnew hr hst
+
+/-- **[R] `C02.full_dual_infeasible_certifies_presolved`** — `full_dual_infeasible_certifies` when
+presolve DROPS ROWS: `qᵀx < 0` (`c·κ·qᵀx < −tol_infeas_abs`) and the `‖Px‖` test do not involve the
+rows; the `‖Ax+s‖` test holds with both norms taken over the KEPT rows (`nrmKept`); every dropped
+row carries `s = infbound` (there the row of `Ax+s` is NOT small — the exception the property
+states); `s ∈ K` for the full vector (`0 ≤ infbound`), `|x| = n`. -/
+theorem full_dual_infeasible_certifies_presolved {P : Csc ℝ} {q : Array ℝ} {A : Csc ℝ}
+    {b : Array ℝ} {cones : List (ConeT ℝ)} {st : Solver.Settings ℝ} {perm : Array Nat} {S : Solver ℝ}
+    {r : SolveResult ℝ} {keep : List Bool}
+    (hin : InputOK P q A b cones) (hpe : st.presolveEnable = true)
+    (hk : Presolve.keepFlags (Presolve.threshold st.infbound) (Cones.newCollapsed cones) b.toList = .ok keep)
+    (hc : keep.count true < b.size) (hib : 0 ≤ st.infbound)
+    (hlo : 0 < st.equil.minScaling) (hhi : 0 < st.equil.maxScaling)
+    (hf0 : 0 < st.maxStepFraction) (hf1 : st.maxStepFraction < 1) (hmv : 0 < st.maxValue)
+    (htabs : 0 ≤ st.info.full.infeas_abs)
+    (hnew : Solver.new P q A b cones st perm = .ok S) (hr : S.solve st = .ok r)
+    (hst : r.S.solution.status = .dualInfeasible) :
+    ∃ (Pn : Csc ℝ) (c κ : ℝ), ProblemData.triuStep P = .ok Pn ∧ 0 < c ∧ 0 < κ ∧
+      let x := vecFn r.S.solution.x A.n
+      let sv := vecFn r.S.solution.s A.m
+      let kp := InfoPresolve.keepFn keep A.m
+      c * κ * dot (vecFn q A.n) x < -st.info.full.infeas_abs
+      ∧ dot (vecFn q A.n) x < 0
+      ∧ nrm (mulV (symFn Pn A.n) x)
+          < st.info.full.infeas_rel * (-(dot (vecFn q A.n) x)) * max 1 (κ * nrm x)
+      ∧ InfoPresolve.nrmKept kp (fun k => mulV (matFn A A.m A.n) x k + sv k)
+          < st.info.full.infeas_rel * c * (-(dot (vecFn q A.n) x))
+              * max 1 (κ * (nrm x + InfoPresolve.nrmKept kp sv))
+      ∧ (∀ i, kp i = false → sv i = st.infbound)
+      ∧ Equil.CompositeMem Equil.ConeMem (Cones.newCollapsed cones) r.S.solution.s.toList
+      ∧ r.S.solution.x.size = A.n :=
+  full_dual_infeasible_presolved_chain hin hpe hk hc hib hlo hhi hf0 hf1 hmv htabs hnew hr hst
+
+/-- **[R] `C02.full_almost_primal_infeasible_certifies_presolved`** — the same for
+`AlmostPrimalInfeasible` (reduced tolerances, `reduced_tol_ktratio ≤ 1000`). -/
+theorem full_almost_primal_infeasible_certifies_presolved {P : Csc ℝ} {q : Array ℝ} {A : Csc ℝ}
+    {b : Array ℝ} {cones : List (ConeT ℝ)} {st : Solver.Settings ℝ} {perm : Array Nat} {S : Solver ℝ}
+    {r : SolveResult ℝ} {keep : List Bool}
+    (hin : InputOK P q A b cones) (hpe : st.presolveEnable = true)
+    (hk : Presolve.keepFlags (Presolve.threshold st.infbound) (Cones.newCollapsed cones) b.toList = .ok keep)
+    (hc : keep.count true < b.size)
+    (hlo : 0 < st.equil.minScaling) (hhi : 0 < st.equil.maxScaling)
+    (hf0 : 0 < st.maxStepFraction) (hf1 : st.maxStepFraction < 1) (hmv : 0 < st.maxValue)
+    (htabs : 0 ≤ st.info.reduced.infeas_abs)
+    (hgate : 1 ≤ (1 / st.info.reduced.ktratio) * 1000)
+    (hnew : Solver.new P q A b cones st perm = .ok S) (hr : S.solve st = .ok r)
+    (hst : r.S.solution.status = .almostPrimalInfeasible) :
+    ∃ (c κ : ℝ), 0 < c ∧ 0 < κ ∧
+      let bc := ProblemData.capB b st.infbound
+      let z := vecFn r.S.solution.z A.m
+      c * κ * dot (vecFn bc A.m) z < -st.info.reduced.infeas_abs
+      ∧ dot (vecFn bc A.m) z < 0
+      ∧ nrm (mulVT (matFn A A.m A.n) z)
+          < st.info.reduced.infeas_rel * c * (-(dot (vecFn bc A.m) z)) * max 1 (κ * nrm z)
+      ∧ (∀ i, InfoPresolve.keepFn keep A.m i = false → z i = 0)
+      ∧ Equil.CompositeMem Equil.ConeMemDual (Cones.newCollapsed cones) r.S.solution.z.toList :=
+  full_almost_primal_infeasible_presolved_chain hin hpe hk hc hlo hhi hf0 hf1 hmv htabs hgate hnew hr hst
+
+/-- **[R] `C02.full_almost_dual_infeasible_certifies_presolved`** — the same for
+`AlmostDualInfeasible`. -/
+theorem full_almost_dual_infeasible_certifies_presolved {P : Csc ℝ} {q : Array ℝ} {A : Csc ℝ}
+    {b : Array ℝ} {cones : List (ConeT ℝ)} {st : Solver.Settings ℝ} {perm : Array Nat} {S : Solver ℝ}
+    {r : SolveResult ℝ} {keep : List Bool}
+    (hin : InputOK P q A b cones) (hpe : st.presolveEnable = true)
+    (hk : Presolve.keepFlags (Presolve.threshold st.infbound) (Cones.newCollapsed cones) b.toList = .ok keep)
+    (hc : keep.count true < b.size) (hib : 0 ≤ st.infbound)
+    (hlo : 0 < st.equil.minScaling) (hhi : 0 < st.equil.maxScaling)
+    (hf0 : 0 < st.maxStepFraction) (hf1 : st.maxStepFraction < 1) (hmv : 0 < st.maxValue)
+    (htabs : 0 ≤ st.info.reduced.infeas_abs)
+    (hgate : 1 ≤ (1 / st.info.reduced.ktratio) * 1000)
+    (hnew : Solver.new P q A b cones st perm = .ok S) (hr : S.solve st = .ok r)
+    (hst : r.S.solution.status = .almostDualInfeasible) :
+    ∃ (Pn : Csc ℝ) (c κ : ℝ), ProblemData.triuStep P = .ok Pn ∧ 0 < c ∧ 0 < κ ∧
+      let x := vecFn r.S.solution.x A.n
+      let sv := vecFn r.S.solution.s A.m
+      let kp := InfoPresolve.keepFn keep A.m
+      c * κ * dot (vecFn q A.n) x < -st.info.reduced.infeas_abs
+      ∧ dot (vecFn q A.n) x < 0
+      ∧ nrm (mulV (symFn Pn A.n) x)
+          < st.info.reduced.infeas_rel * (-(dot (vecFn q A.n) x)) * max 1 (κ * nrm x)
+      ∧ InfoPresolve.nrmKept kp (fun k => mulV (matFn A A.m A.n) x k + sv k)
+          < st.info.reduced.infeas_rel * c * (-(dot (vecFn q A.n) x))
+              * max 1 (κ * (nrm x + InfoPresolve.nrmKept kp sv))
+      ∧ (∀ i, kp i = false → sv i = st.infbound)
+      ∧ Equil.CompositeMem Equil.ConeMem (Cones.newCollapsed cones) r.S.solution.s.toList
+      ∧ r.S.solution.x.size = A.n :=
+  full_almost_dual_infeasible_presolved_chain hin hpe hk hc hib hlo hhi hf0 hf1 hmv htabs hgate hnew hr hst
+
+/-- non-vacuity of the presolve hypotheses `hk`, `hc`, `hib` over `ℝ`: cones `[nonneg 2]`,
+`b = (1, 2·10²⁰)`, infinity bound `10²⁰` — `make_reduction_map` drops row 1 (the run hypotheses: as
+in `C09`'s non-vacuity example on the integer instance of `Lemmas/PresolveSolveTransparent.lean`) -/
+example : Presolve.keepFlags (Presolve.threshold (1e20 : ℝ)) (Cones.newCollapsed [ConeT.nonneg 2])
+      (#[1, 2e20] : Array ℝ).toList = .ok [true, false]
+    ∧ [true, false].count true < (#[1, 2e20] : Array ℝ).size ∧ (0 : ℝ) ≤ 1e20 :=
+  ⟨Solver.keepFlags_example, by decide, by norm_num⟩
 
 end Clarabel.C02
